@@ -165,6 +165,7 @@ type World struct {
 	// LastArm is the virtual time of the latest AfterFunc arming by instrumented code (a retry timer
 	// chain that outlives its session keeps re-arming: see C13)
 	LastArm atomic.Int64
+	vids    map[uint64]uint64 // goroutine id -> virtual id of timer-callback goroutines (see AfterFunc)
 
 	Steps     int64 // scheduler decisions taken
 	Parks     int64
@@ -198,7 +199,7 @@ func Cur() *World { return cur.Load() }
 // NewWorld must be called inside the bubble by its root goroutine (the driver).
 func NewWorld(seed uint64, cfg SchedCfg) *World {
 	w := &World{Seed: seed, T0: time.Now(), Cfg: cfg, wake: make(chan struct{}, 1), rng: NewRng(seed ^ 0xD1CE),
-		siteMemo: map[string]bool{}, counters: map[string]int{}, chanSeq: map[string]int{},
+		siteMemo: map[string]bool{}, counters: map[string]int{}, vids: map[uint64]uint64{}, chanSeq: map[string]int{},
 		SitesHit: map[string]int{}, Switches: map[string]int{}}
 	if w.Cfg.MaxSteps == 0 {
 		w.Cfg.MaxSteps = 400000
@@ -366,6 +367,9 @@ func (w *World) parkAsKey(site string, wake bool, key uint64) {
 			// tie-break request (see breakTies): the goroutine id reflects creation order
 			id := Goid()
 			w.mu.Lock()
+			if v, ok := w.vids[id]; ok {
+				id = v // a timer callback: ranked by arming order, not by the id the runtime gave its goroutine
+			}
 			p.goid = id
 			w.mu.Unlock()
 		}
@@ -982,8 +986,22 @@ func AfterFunc(d time.Duration, f func()) *time.Timer {
 		}
 	}
 	t := time.AfterFunc(d+jitter("af"), func() {
-		if w := cur.Load(); w != nil && !w.draining.Load() && !w.isDriver() {
-			w.parkAsKey("simrt:timer-fired", true, rank)
+		if w := cur.Load(); w != nil {
+			// the goroutines of callbacks that come due at the same nanosecond get their ids in an order
+			// the Go runtime chooses: wherever goroutine ids break ties (two of them waiting for one lock)
+			// a callback counts with its timer's arming order instead
+			g := Goid()
+			w.mu.Lock()
+			w.vids[g] = 1<<40 + rank
+			w.mu.Unlock()
+			defer func() {
+				w.mu.Lock()
+				delete(w.vids, g)
+				w.mu.Unlock()
+			}()
+			if !w.draining.Load() && !w.isDriver() {
+				w.parkAsKey("simrt:timer-fired", true, rank)
+			}
 		}
 		f()
 	})
